@@ -304,6 +304,11 @@ class Gen:
                 rn = p.get("result") or p["name"]
                 d = self._simple_decl(rt, rn)
                 d["ents"][0]["doc"] = self.doc(("variable", rn))
+                if not p.get("_elemental") and sig is None and not passed and rt["base"] != "character" \
+                        and "result_attrs" not in self.excl and ch.bool(1, 3):
+                    # an array result; the renderer may give the attribute by a separate statement
+                    d["attrs"] = [ch.choice(["allocatable", "pointer"])]
+                    d["dimattr"] = "(:)"
                 p["decls"].append(d)
         if self.cfg["bind"] and level == 0 and not p["prefix"] and not passed and sig is None and not p["args"] \
                 and k == "subroutine" and ch.bool(1, 6):
